@@ -129,12 +129,12 @@ def tlc(spec_dir, base, consts=None, *, cfg_consts=None, spec="Spec", init=None,
         cfg.append("INIT " + init)
         cfg.append("NEXT " + next_)
     cfg.append("CONSTANTS")
+    lines.append(defs)
     for k, v in (consts or {}).items():
         lines.append("mc_%s == %s" % (k, tla(v)))
         cfg.append("  %s <- mc_%s" % (k, k))
     for k, v in (cfg_consts or {}).items():
         cfg.append("  %s = %s" % (k, v))
-    lines.append(defs)
     lines.append("====")
     if constraint:
         cfg.append("CONSTRAINT " + constraint)
